@@ -1,6 +1,7 @@
 (* C26: hop-by-hop headers are not forwarded.  Property theorems only. *)
 From Coq Require Import List ZArith Bool.
-From Bfe Require Import lib.Val lib.Bytes gen.HopHeaders model.HopByHop proofs.HopByHopProofs run.RunC26.
+From Bfe Require Import lib.Val lib.Bytes gen.HopHeaders model.HopByHop proofs.HopByHopProofs run.RunC26
+     proofs.HopByHopRunProofs.
 Import ListNotations.
 Open Scope Z_scope.
 
@@ -33,6 +34,26 @@ Theorem C26_connection_tokens_refuted :
                      In (line_of k [49]) ls.
 Proof. exact connection_tokens_refuted. Qed.
 Print Assumptions C26_connection_tokens_refuted.
+
+(* The guarded statement, end to end through the wire functions the harness evaluates on the real server: for EVERY
+   input whose header names are token strings (wf_C26; it also says a chunked body only comes with modes 2/3) and that
+   is outside known-finding class 1 (kf_C26 i = 0: no field that survives to the backend is named by a token of the
+   client's Connection fields), the header block the model sends to the backend satisfies prop_C26: no line named
+   Connection, Keep-Alive, Proxy-Authenticate, Proxy-Authorization, Te (other than "Te: trailers"), Trailer,
+   Transfer-Encoding (other than BFE's own "chunked" framing of a relayed chunked body) or Upgrade, in any letter case,
+   and no line named by a Connection token.  The model is tied to the running server by agree_C26 on every case. *)
+Theorem C26_connection_tokens_partial : forall i,
+  wf_C26 i = true -> kf_C26 i = 0 -> prop_C26 i (run_C26 i) = true.
+Proof. exact prop_C26_of_model. Qed.
+Print Assumptions C26_connection_tokens_partial.
+
+(* Non-vacuity of the guarded statement: "Connection: close", "te: trailers", "Transfer-Encoding: chunked", "X-Foo: 1"
+   with a chunked body; the backend gets Host, Transfer-Encoding: chunked (own framing), Te: trailers, X-Foo: 1. *)
+Example C26_partial_nonvacuous :
+  wf_C26 ex_wire = true /\ kf_C26 ex_wire = 0 /\
+  run_C26 ex_wire = VL (map VB [line_of s_host host_C26; line_of s_transfer_encoding s_chunked;
+                                line_of s_te s_trailers; [88;45;70;111;111;58;32;49]]).
+Proof. exact ex_wire_ok. Qed.
 
 (* Non-vacuity: a parsed header block with all eight listed fields, X-Foo and Te: trailers; only the last two survive. *)
 Example C26_listed_removed_nonvacuous :
